@@ -283,7 +283,7 @@ func (e *Env) call(x *xast.Expr, c Ctx, stepSet []*xmodel.Node) (Value, error) {
 }
 
 func (e *Env) round(f float64) float64 {
-	if e.RoundHalfAwayNegative && f < 0 && !math.IsInf(f, 0) && math.Abs(f) < 1<<52 {
+	if e.RoundHalfAwayNegative && f < -0.5 && !math.IsInf(f, 0) && math.Abs(f) < 1<<52 {
 		if fl := math.Floor(f); f-fl == 0.5 {
 			return fl
 		}
